@@ -4,7 +4,8 @@
 Require Import SB.Model.Base SB.Model.Geom SB.Model.Merge SB.Model.FragBuf SB.Model.Endorse SB.Model.Tree
   SB.Model.Svg SB.Model.Lib
   SB.Theory.MergeTheory SB.Theory.ShiftTheory SB.Theory.ShiftBuf SB.Theory.ShiftEndorse SB.Theory.SepTheory SB.Theory.TreeSep
-  SB.Theory.PipeInv SB.Theory.SepOrder SB.Theory.ShiftText SB.Theory.Juxta SB.Model.Text.
+  SB.Theory.PipeInv SB.Theory.SepOrder SB.Theory.ShiftText SB.Theory.Juxta SB.Model.Text
+  SB.Theory.ShiftDoc SB.Theory.SwitchTheory SB.Theory.StackDoc.
 From Coq Require Import Permutation QArith.
 #[local] Open Scope Z_scope.
 
@@ -167,7 +168,50 @@ Check C10_stacked_drawings :
     /\ map_res (shift_ec (Z.of_nat k) (height A + Z.of_nat g)) (endorse_cells (cb_cells cbB))
        = Ok (filter (fsside lower) acc, filter (cside lower) groups).
 
-(** What remains with the correspondence and the oracle of this check: the no-fit hypothesis
+(** ... and down to the nodes of the document, when the gap is two blank lines or more: the
+    fragments handed to the enclosure pass and the contact groups of the stack, of [A] and of
+    [B] are as above, no fragment of one part fits in the bounds of a fragment of the other
+    (the canvas theorem of C12, applied to each part, puts everything of [A] above everything
+    of [B]), and the drawing nodes of the stack are those of [A] together with those of [B]
+    moved by [k] columns and [height A + g] rows ([tr_node] adds the offset to every
+    coordinate attribute and leaves lengths, classes and text alone). *)
+Theorem C10_stacked_document :
+  forall A B k g css cbA cbB cb, (2 <= g)%nat ->
+    cellbuffer_of_text (A ++ [10]) css = Ok cbA -> cellbuffer_of_text B css = Ok cbB ->
+    cellbuffer_of_text (stacked A B k g) css = Ok cb ->
+    forall s : Q,
+    let dx := (inject_Z (Z.of_nat k) * s)%Q in
+    let dy := (inject_Z (height A + Z.of_nat g) * s * 2)%Q in
+    exists fA gA fB gB fAB gAB nA nB nAB,
+      fragments_of cbA = Ok (fA, gA) /\ fragments_of cbB = Ok (fB, gB) /\ fragments_of cb = Ok (fAB, gAB)
+      /\ drawing_nodes s fA gA = Ok nA /\ drawing_nodes s fB gB = Ok nB /\ drawing_nodes s fAB gAB = Ok nAB
+      /\ Permutation nAB (nA ++ map (tr_node dx dy) nB).
+Proof. intros A B k g css cbA cbB cb G HA HB HAB s. exact (stacked_drawing A B k g css cbA cbB cb G HA HB HAB s). Qed.
+Check C10_stacked_document :
+  forall A B k g css cbA cbB cb, (2 <= g)%nat ->
+    cellbuffer_of_text (A ++ [10]) css = Ok cbA -> cellbuffer_of_text B css = Ok cbB ->
+    cellbuffer_of_text (stacked A B k g) css = Ok cb ->
+    forall s : Q,
+    let dx := (inject_Z (Z.of_nat k) * s)%Q in
+    let dy := (inject_Z (height A + Z.of_nat g) * s * 2)%Q in
+    exists fA gA fB gB fAB gAB nA nB nAB,
+      fragments_of cbA = Ok (fA, gA) /\ fragments_of cbB = Ok (fB, gB) /\ fragments_of cb = Ok (fAB, gAB)
+      /\ drawing_nodes s fA gA = Ok nA /\ drawing_nodes s fB gB = Ok nB /\ drawing_nodes s fAB gAB = Ok nAB
+      /\ Permutation nAB (nA ++ map (tr_node dx dy) nB).
+(** the document is the root with its switch nodes followed by these drawing nodes
+    ([doc_emit_shape]); its canvas covers both parts: the last occupied column is that of the
+    wider part (the lower one moved), the last occupied row that of the lower part moved *)
+Theorem C10_stacked_canvas :
+  forall A B k g css cbA cbB cb, (2 <= g)%nat ->
+    cellbuffer_of_text (A ++ [10]) css = Ok cbA -> cellbuffer_of_text B css = Ok cbB ->
+    cellbuffer_of_text (stacked A B k g) css = Ok cb ->
+    cb_cells cbA <> [] -> cb_cells cbB <> [] ->
+    cells_max (cb_cells cb)
+    = C (Z.max (cx (cells_max (cb_cells cbA))) (cx (cells_max (cb_cells cbB)) + Z.of_nat k))
+        (cy (cells_max (cb_cells cbB)) + (height A + Z.of_nat g)).
+Proof. intros A B k g css cbA cbB cb G HA HB HAB NA NB. exact (stacked_canvas A B k g css cbA cbB cb G HA HB HAB ltac:(lia) NA NB). Qed.
+
+(** What remains with the correspondence and the oracle of this check: gaps of one line, the no-fit hypothesis
     of the last two theorems (C12 bounds every fragment by the canvas, not by the cells of its
     own group) and the text stage of side-by-side placement (stacking is proved above). *)
 Example C10_nonvacuous : span_can_merge [(C 0 0, 45)] [(C 2 0, 45)] = false.
